@@ -183,6 +183,27 @@ pub fn run(ctx: &mut Ctx) {
                 format!("code={}", o.status.code().unwrap_or(-1))
             });
         }
+        // 6b. output whose LAST line is not newline-terminated (after zero or more complete lines),
+        // around the 1 KiB line buffer of the standard output: every byte must be shown, also when
+        // the command fails
+        for tail in [1usize, 1023, 1024, 1025, 4096, 70000] {
+            for (heads, fails) in [(0usize, false), (1, false), (3, true)] {
+                ctx.count("unterminated_tail");
+                ctx.emit(&format!("n2bin tail {} {} {}", tail, heads, if fails { 1 } else { 0 }), || {
+                    tp.reset();
+                    let mut cmd = String::new();
+                    for i in 0..heads { cmd.push_str(&format!("echo line{}; ", i)); }
+                    cmd.push_str(&format!("head -c {} /dev/zero | tr '\\0' x", tail));
+                    if fails { cmd.push_str("; exit 3"); }
+                    std::fs::write("build.ninja", format!("rule r\n  command = {}\n  description = t\nbuild out: r\n", cmd)).unwrap();
+                    let o = Command::new(&bin).output();
+                    let Ok(o) = o else { return "spawn-failed".into() };
+                    let xs = o.stdout.iter().filter(|b| **b == b'x').count();
+                    let lines = (0..heads).filter(|i| { let m = format!("line{}\n", i); o.stdout.windows(m.len()).any(|w| w == m.as_bytes()) }).count();
+                    format!("code={} xs={} lines={}", o.status.code().unwrap_or(-1), xs, lines)
+                });
+            }
+        }
         // 7. output directories: every (nested) parent directory of every output exists when the command starts
         let ncases = if ctx.thorough() { 400 } else { 80 };
         for _ in 0..ncases {
